@@ -158,7 +158,7 @@ CLAIMED = {
         "power, coolant, tool number, feed rate, distance/extrusion/feed modes, units, plane, the three target temperatures and "
         "the last value of every move parameter reported by the state equal what a modal interpreter derives from the emitted "
         "statements. Correspondence compares every public state property after every call; a Python modal interpreter replays "
-        "the real output.",
+        "the real output. The enum->instruction table is *translated* from the source text of gscrib/codes/gcode_mappings.py into Lean on every run (tools/gen_code_table.py -> Gen/CodeTable.lean) and Tables_step_emits_table / Tables_rows_cover / Tables_emergency_codes re-proved: the codes the model writes are exactly the source table's.",
         "Trusted: as C02. F/S modal on motion, probe, tool-start and bare-word statements; power compared while the tool runs "
         "(the builder zeroes its figure on M05); X/Y/Z excluded from move parameters (C01).",
         "DESIGN.md section 7 / C07",
@@ -192,7 +192,7 @@ CLAIMED = {
         "Proof: C02_step_safe/C02_run_safe show for every builder state and every call history that each emitted statement is safe "
         "at the moment it is executed and that the reported flags mirror the emitted codes; C02_error_class and "
         "C02_reject_only_documented characterise exactly when the interlock API rejects. The model is tied to the source by running "
-        "thousands of random histories per run on both and comparing outcome class, emitted codes and flags after every call.",
+        "thousands of random histories per run on both and comparing outcome class, emitted codes and flags after every call. The enum->instruction table is *translated* from the source text of gscrib/codes/gcode_mappings.py into Lean on every run (tools/gen_code_table.py -> Gen/CodeTable.lean) and Tables_step_emits_table / Tables_rows_cover / Tables_emergency_codes re-proved: the codes the model writes are exactly the source table's.",
         "Trusted: Lean kernel (propext, Classical.choice, Quot.sound), Lean compiler for the driver, the hand-written model "
         "(tied by correspondence), the Python adapter/lexer; exact arithmetic on the dyadic grid; typeguard type errors not modelled.",
         "DESIGN.md section 7 / C02",
@@ -211,7 +211,7 @@ CLAIMED = {
         "Lean 4 theorems over the Builder model for every builder value (no reachability hypothesis) + differential "
         "correspondence on histories ending in a shutdown call",
         "Proof: C06_tool_off, C06_power_off, C06_coolant_off, C06_emergency hold for every state and bounds table: the call "
-        "succeeds, writes exactly M05 / M09 / M05 M09 comment M00|M30, and leaves the flags down; C06_emergency_safe.",
+        "succeeds, writes exactly M05 / M09 / M05 M09 comment M00|M30, and leaves the flags down; C06_emergency_safe. The enum->instruction table is *translated* from the source text of gscrib/codes/gcode_mappings.py into Lean on every run (tools/gen_code_table.py -> Gen/CodeTable.lean) and Tables_step_emits_table / Tables_rows_cover / Tables_emergency_codes re-proved: the codes the model writes are exactly the source table's.",
         "Trusted: as C02.",
         "DESIGN.md section 7 / C06",
     ),
